@@ -11,5 +11,5 @@ CHECK = dict(
     engine="node-replay",
 )
 ENGINE = dict(name="node-replay", path="harness/cmd/forks (+ internal/node, internal/memkv) + specs/chain",
-              serves_properties=["C11", "C12"],
+              serves_properties=["C11", "C12", "C24", "C25"],
               kind_free_text="TLC-exported behaviours of the chain specifications replayed against a real protocol.Chain in worker processes")
